@@ -5,7 +5,10 @@ V = os.path.dirname(os.path.dirname(os.path.abspath(__file__)))
 BASE_OFF = "cd /repo && /venv/bin/python -m pytest -ra -q -p no:cacheprovider --timeout=900 --continue-on-collection-errors"
 LEVEL = ("bounded symbolic execution of the repository's own functions on z3 proxy integers (SX) with one SMT query per "
          "explored path: within the stated instantiation family and integer ranges the solver's verdict covers every value of "
-         "the symbolic inputs; counterexamples are replayed on the unpatched code before being reported. %s")
+         "the symbolic inputs; counterexamples are replayed on the unpatched code (plain interpreter, independent concrete oracle) "
+         "before being reported; the encoding is validated on every run by executing the real code on solver-chosen (also "
+         "boundary-biased) inputs and comparing with SX's prediction; a sample of final queries is re-decided by cvc5. Nothing is "
+         "claimed outside the bounds recorded in evidence. %s")
 CHECKS = {
  "C09": ("§3 C09", "symbolic: arguments of one call (dictionaries over all ids incl. sub-proposition and top ids), thresholds/signs/boxes; cache key (hash and equality) of two configurators with independent symbolic item boxes; instantiated: models, operations", "M4, M5, M6, M7, M10; one inductive step from the freshly built object; open known finding assume-mutates-named-subproposition excluded as a class"),
  "C18": ("§3 C18", "symbolic: thresholds/signs of old and added rules; instantiated: configurators, addition sequences (<=3), id-clash selector; polyhedron/default priorities/select on a representative per path", "M4, M5, M6, M7; thin solver share (equalities between parameter terms), stated"),
